@@ -361,7 +361,7 @@ PROPS = {
                       "array-list model of Python lists (append/remove/iteration), locks as no-ops.",
     },
     "C19": {
-        "modules": ["contracts.c19_collection"],
+        "modules": ["contracts.c19_collection", "contracts.c19_items"],
         "claim_level": "other",
         "design_ref": "6.19",
         "technique": TECH,
@@ -372,12 +372,14 @@ PROPS = {
             "Collection.__getitem__: c[k] == items[k] for 0 <= k < len, for every member incl. falsy ones; IndexError "
             "iff k >= len (proved)",
             "Collection.__setitem__ (0 <= k < len): items' = items[k := v], chain stays well-formed (proved)",
+            "Graph.items (the traversal behind __iter__ and __len__): terminates on every finite graph (variant), yields only "
+            "rdf:first values of cells of the chain, raises ValueError only when the chain revisits a cell (proved)",
             "Collection._end: last cell, terminates on well-formed chains; Collection.append: items' = items + [x] "
             "with one fresh cell, chain stays well-formed, no orphan (proved)",
         ],
         "clauses_not_decided": [
-            "__len__/__iter__ (Graph.items ordered traversal), index, __delitem__, clear, __iadd__: bounded stand-in "
-            "only so far (ordered-yield contracts not yet written)",
+            "that __len__/__iter__ (Graph.items) yield EVERY member, in order; index, __delitem__, clear, __iadd__: bounded "
+            "stand-in only (ordered-yield contracts not written)",
             "negative indices (c[-1]) and item assignment at index == len: known differences from list "
             "(known finding C19-setitem-at-len); reads on cyclic/broken chains: bounded (all chains <= 3 cells)",
         ],
